@@ -1,12 +1,49 @@
 (* Properties_C05.v — C05: the JSON decoder agrees with RFC 8259 (plus the
-   trailing-comma leniency).  Statements are added as the proofs land. *)
+   trailing-comma leniency).  [jparse_item lenient] (JsonParse.v) is the
+   recursive-descent reading of the RFC 8259 grammar; [jdec_run] (JsonDec.v)
+   is the decoder automaton that is compared with the Go code.  The reading
+   itself is validated against Go's encoding/json on every check run.
+   Statements only; proofs in JsonDecProof.v. *)
 From Coq Require Import List ZArith.
-Require Import Tok JsonDec.
+Require Import Tok CborDec CborParse JsonDec JsonParse JsonDecProof.
 Import ListNotations.
 Open Scope Z_scope.
 
-(* sanity, evaluated by the kernel: misspelt literals, malformed numbers and
-   non-string keys are rejected; the trailing comma is accepted *)
+(* Every text the STRICT RFC 8259 reading accepts is decoded to exactly the
+   tokens of the value it denotes, leaving exactly the rest ... *)
+Theorem C05_complete_strict : forall fuel bs n rest,
+  jpvalue fuel false bs = POk n rest -> jdec_run bs = JDOk (flatten n) rest.
+Proof. intros fuel bs n rest H. apply (jdec_complete fuel). apply strict_implies_lenient. exact H. Qed.
+Print Assumptions C05_complete_strict.
+
+(* ... the decoder accepts exactly what the lenient reading (strict + optional
+   ',' before a closing bracket) accepts, with the same value ... *)
+Theorem C05_complete : forall fuel bs n rest,
+  jpvalue fuel true bs = POk n rest -> jdec_run bs = JDOk (flatten n) rest.
+Proof. exact jdec_complete. Qed.
+Theorem C05_sound : forall bs toks rest,
+  jdec_run bs = JDOk toks rest -> exists n, jparse_item true bs = POk n rest /\ toks = flatten n.
+Proof. exact jdec_sound. Qed.
+Print Assumptions C05_sound.
+
+(* ... and everything else is an error (misspelt literals, malformed numbers,
+   non-string keys, missing separators, unterminated documents). *)
+Theorem C05_rejects : forall fuel bs e,
+  jpvalue fuel true bs = PErr e -> exists toks, jdec_run bs = JDFail e toks.
+Proof. exact jdec_error. Qed.
+Theorem C05_error_only_if_invalid : forall bs e toks,
+  jdec_run bs = JDFail e toks -> jparse_item true bs = PErr e.
+Proof. exact jdec_rejects. Qed.
+Print Assumptions C05_error_only_if_invalid.
+
+Theorem C05_spec_total : forall l bs, jparse_item l bs <> PFuel.
+Proof. exact jparse_item_total. Qed.
+Theorem C05_decoder_total : forall bs,
+  (exists toks rest, jdec_run bs = JDOk toks rest) \/ (exists e toks, jdec_run bs = JDFail e toks).
+Proof. exact jdec_total. Qed.
+Print Assumptions C05_decoder_total.
+
+(* sanity, evaluated by the kernel *)
 Example C05_nxyz_rejected : match jdec_run [110;120;121;122] with JDFail _ _ => True | _ => False end.
 Proof. vm_compute. exact I. Qed.
 Example C05_one_dot_rejected : match jdec_run [91;49;46;93] with JDFail _ _ => True | _ => False end.
@@ -16,3 +53,6 @@ Proof. vm_compute. exact I. Qed.
 Example C05_trailing_comma_accepted :
   jdec_run [91;49;44;93] = JDOk [Tok (ArrOpen (-1)) None; Tok (Int 1) None; Tok ArrClose None] [].
 Proof. vm_compute. reflexivity. Qed.
+Example C05_trailing_comma_not_strict :
+  match jparse_item false [91;49;44;93] with PErr _ => True | _ => False end.
+Proof. vm_compute. exact I. Qed.
